@@ -25,6 +25,7 @@ type reasonSpec struct {
 	callees        []string // callees whose result may decide a refusal
 	conds          []string // further admissible condition descriptors (regular expressions)
 	why            string
+	noneOK         bool // a function whose verdict is the value of a final comparison has no rejecting branch
 }
 
 // condCallees: the calls a branch condition is computed from (through boolean / comparison operators,
@@ -169,6 +170,10 @@ func (c *Ctx) rejectReasonsRule(p *Program, rule string, sp reasonSpec) {
 			bad = append(bad, fmt.Sprintf("%s: refusal decided by %s %v %v", p.pos(ifi.Pos()), d, ks, other))
 		}
 	}
+	if ntests == 0 && sp.noneOK {
+		c.ok(rule, construct, "no branch refuses: the verdict is the value computed at the end", p.fnPos(f))
+		return
+	}
 	if ntests == 0 {
 		c.undecided(rule, construct, "no rejecting test found", p.fnPos(f))
 		return
@@ -179,4 +184,30 @@ func (c *Ctx) rejectReasonsRule(p *Program, rule string, sp reasonSpec) {
 		return
 	}
 	c.ok(rule, construct, fmt.Sprintf("%d rejecting tests: length comparisons and results of %s", ntests, strings.Join(sp.callees, ", ")), p.fnPos(f))
+}
+
+func init() {
+	add := func(prop, rule, clause string, specs ...reasonSpec) {
+		prev := registry[prop]
+		registry[prop] = func(c *Ctx) {
+			prev(c)
+			if p := c.Prog("amd64"); p != nil {
+				c.Clauses = append(c.Clauses, rule+": "+clause)
+				for _, sp := range specs {
+					c.rejectReasonsRule(p, rule, sp)
+				}
+			}
+		}
+	}
+	add("C08", "C08.reasons", "Seal and Open of an HPKE context refuse only when the sequence number would overflow or the AEAD refuses (an added length test desynchronises the two sides: the sealer has already advanced)",
+		reasonSpec{pkg: "hpke", typ: "openContext", name: "Open", why: "RFC 9180 5.2 ContextR.Open: the AEAD's verdict, the sequence-number overflow", callees: []string{"(hpke.encdecContext).increment", "invoke (crypto/cipher.AEAD).Open"}},
+		reasonSpec{pkg: "hpke", typ: "sealContext", name: "Seal", why: "RFC 9180 5.2 ContextS.Seal: the sequence-number overflow", callees: []string{"(hpke.encdecContext).increment"}})
+	tk := "abe/cpabe/tkn20/internal/tkn"
+	add("C20", "C20.couldreasons", "the could-decrypt predicate answers false only for a malformed ciphertext or when the satisfaction predicate fails (any further test makes it disagree with decryption)",
+		reasonSpec{pkg: tk, name: "CouldDecrypt", why: "framing of the ciphertext, then Policy.Satisfaction", callees: []string{"(" + tk + ".ciphertextHeader).unmarshalBinary", tk + ".removeLenPrefixed", "(" + tk + ".Policy).Satisfaction"}, conds: []string{`\(call:\?#2!=nil\)`}})
+	for _, prop := range []string{"C05", "C12"} {
+		add(prop, prop+".qrreasons", "the inverse square root reports a non-residue only through its final comparison (zero numerators are residues: the points (0,1) and (0,-1) decode)",
+			reasonSpec{pkg: "math/fp448", name: "InvSqrt", why: "isQR is the value of the final comparison y*z^2 == x", noneOK: true},
+			reasonSpec{pkg: "math/fp25519", name: "InvSqrt", why: "isQR is decided by the final comparisons only", callees: []string{"math/fp25519.IsZero"}})
+	}
 }
